@@ -477,6 +477,10 @@ func checkConfigProducer(w *World, r *Report, fn *ssa.Function, depth int) {
 			if arg, ok := call.Call.Args[0].(*ssa.UnOp); ok && w.resolveAddr(arg.X) == ssa.Value(al) {
 				validated = true
 			}
+			// (a pointer receiver gets the cell itself)
+			if w.resolveAddr(call.Call.Args[0]) == ssa.Value(al) {
+				validated = true
+			}
 		}
 		if validated {
 			// report once per returned value only if all paths agree: record failures eagerly
